@@ -22,6 +22,14 @@ func subjects(name, bounds string) []gen.Subject {
 		return append(gen.Snippets(), append(gen.CallGraphShapes(2, 3), gen.CallGraphShapes(3, 1)...)...)
 	case "snippets":
 		return gen.Snippets()
+	case "alias":
+		var d int
+		fmt.Sscanf(bounds, "d%d", &d)
+		var out []gen.Subject
+		for _, p := range gen.AliasFamily(d) {
+			out = append(out, gen.Subject{Sig: p.Sig(), Atoms: p.Atoms(), Src: p.Src()})
+		}
+		return out
 	case "gopanic":
 		var out []gen.Subject
 		for _, c := range gen.GoPanicFamily() {
